@@ -263,7 +263,7 @@ def run(ctx):
 
 
 def search(ctx):
-    pass  # the oracles already ran on every case in run()
+    ctx.widen(run)  # the oracles already ran on every case in run()
 
 
 def replay(ctx, rp):
